@@ -205,7 +205,8 @@ static uintptr_t AIL_to_value(struct node* p)
 #define LOCK_ENS(rv) (G.lk.held[L_L0] && G.lk.acq == 1 && G.lk.rel == 0 && ((rv) & lock_bit) == 0 && L0 == ((rv) | lock_bit) && G.lk.acq_val[L_L0] == (rv) && G.link_stores == 1)
 /* try_lock_checking: true: as lock, value in *head_val.  false: nothing was written, no lock is held.
  * NOT promised (and not true, see probes/native/atomic_list_push_back_aba_lost_node.cpp): that `monitored == expected` still
- * holds when the lock has been acquired -- the CAS only shows that the link has the VALUE it had before the check (ABA) */
+ * holds when the lock has been acquired -- the CAS only shows that the link has the VALUE it had before the check (ABA).
+ * The callers therefore re-check the value they got (finding C15-atomic-list-aba, fixed): see PB_INV / DR_BREAK_POST */
 #define TLC_ENS(rv) (AIL_BOOL(rv) && ((rv) ==> (G.lk.held[L_L0] && G.lk.acq == 1 && G.lk.rel == 0 && (HV & lock_bit) == 0 && L0 == (HV | lock_bit) && G.lk.acq_val[L_L0] == HV && G.link_stores == 1)) \
                      && (!(rv) ==> (!G.lk.held[L_L0] && G.lk.acq == 0 && G.lk.rel == 0 && G.link_stores == 0)))
 
@@ -276,7 +277,9 @@ static _Bool LO_try_lock_checking(link_t* lk, link_t** monitored, link_t* expect
   VF_P(!G.lk.held[li], "a link is not locked twice by one call (self-deadlock)");
   vf_interfere();
   if (VF_NB()) return 0;                                                  /* the monitored pointer was seen changed: nothing written */
-  vf_acquire(li, lk, 0);
+  /* assumption (listed in the spec): the link is not the null link of an off-list node -- `monitored == expected` was seen while the
+   * link pointed to the monitored node, so a null value at the CAS needs the same ABA as the finding below, twice */
+  vf_acquire(li, lk, 1);
   G.tlc_li = li;
   *head_val = G.lk.acq_val[li];
   return 1;
@@ -341,7 +344,7 @@ __CPROVER_ensures(ITEM_PUBLISHED_AT(L_QHEAD, G.lk.acq_val[L_QHEAD])) /* the item
 /*@BODY push_front_impl*/
 
 /* push_back: entry segment; the retry loop is a cut point */
-#define PB_INV (BALANCED && G.lk.net_changes == 0 && ITEM_PRIVATE && ITEM.rest == QSENTV)
+#define PB_INV (BALANCED && G.lk.net_changes == 0 && G.self_stores == 0 && ITEM_PRIVATE && ITEM.rest == QSENTV)
 static void push_back__loop0(struct ail* self, struct node* item) {
   VF_P(PB_INV, "cut point (push_back retry loop): no lock held, nothing changed, the operand prepared (rest -> sentinel) and still private");
   VF_CANARY("push_back reaches its retry loop");
@@ -358,9 +361,9 @@ int push_back__loop0_body(struct ail* self, struct node* item)
 __CPROVER_requires(LIST_REQ(self) && item == &ITEM && PB_INV && G.no_latch)
 __CPROVER_assigns(LIST_ASSIGNS)
 __CPROVER_ensures(__CPROVER_return_value == VF_X_CONTINUE || __CPROVER_return_value == VF_X_RETURN)
-__CPROVER_ensures(__CPROVER_return_value == VF_X_CONTINUE ==> PB_INV) /* a failed attempt leaves no trace */
-__CPROVER_ensures(__CPROVER_return_value == VF_X_RETURN ==> (BALANCED && G.lk.acq == 1 && G.lk.net_changes == 1))
-__CPROVER_ensures(__CPROVER_return_value == VF_X_RETURN ==> (G.pub_li == G.tlc_li && G.lk.acq_val[G.tlc_li] == QSENTV && ITEM_PUBLISHED_AT(G.tlc_li, QSENTV))) /* linked after the old last node: the tail link pointed to the sentinel, now to the item, item -> sentinel, sentinel.self -> item.rest */
+__CPROVER_ensures(__CPROVER_return_value == VF_X_CONTINUE ==> PB_INV) /* a failed attempt -- also one that locked a link that is not the tail link (ABA in try_lock_checking) -- unlocks it with its value unchanged and retries */
+__CPROVER_ensures(__CPROVER_return_value == VF_X_RETURN ==> (BALANCED && G.lk.acq == 1 && G.lk.net_changes == 1 && G.lk.rel_val[G.tlc_li] == ITEMV)) /* exactly one link changed: it now points to the item */
+__CPROVER_ensures(__CPROVER_return_value == VF_X_RETURN ==> (G.pub_li == G.tlc_li && G.lk.acq_val[G.tlc_li] == QSENTV && ITEM_PUBLISHED_AT(G.tlc_li, QSENTV))) /* the item is linked only behind the TAIL link (its value was the sentinel): tail -> item -> sentinel, sentinel.self -> item.rest: no node is dropped */
 /*@LOOPBODY push_back_impl.loop0.body*/
 
 struct node* AIL_pop_front_impl(struct ail* self)
@@ -400,21 +403,24 @@ __CPROVER_ensures(TR_RET(1) ==> (G.lk.acq == 2 && G.lk.acq_val[G.tlc_li] == ITEM
 /*@LOOPBODY try_remove_impl.loop0.body*/
 
 /* drain_into / latch_and_drain: the loop that locks the last link is a cut point */
-#define DR_INV (G.lk.held[L_QHEAD] && !G.lk.held[L_W1] && !G.lk.held[L_W2] && !G.lk.held[L_ITEM] && !G.lk.held[L_THEAD] && G.lk.acq == 1 && G.lk.rel == 0 \
-                && !IS_SENT(G.lk.acq_val[L_QHEAD]) && G.self_stores == 0 && T_PRIVATE_EMPTY)
-#define DR_BREAK_POST (G.lk.held[L_QHEAD] && G.lk.held[G.tlc_li] && G.tlc_li != L_QHEAD && G.tlc_li != L_THEAD && G.lk.acq == 2 && G.lk.rel == 0 \
-                       && pred_link == LK_ADDR(G.tlc_li) && pred_val == G.lk.acq_val[G.tlc_li] && G.self_stores == 0 && T_PRIVATE_EMPTY)
+#define DR_INV (G.lk.held[L_QHEAD] && !G.lk.held[L_W1] && !G.lk.held[L_W2] && !G.lk.held[L_ITEM] && !G.lk.held[L_THEAD] && G.lk.acq == G.lk.rel + 1 && G.lk.acq < 1000 \
+                && G.lk.net_changes == 0 && !IS_SENT(G.lk.acq_val[L_QHEAD]) && G.self_stores == 0 && T_PRIVATE_EMPTY)
+/* the loop is left only holding the TAIL link: the link that points to the sentinel (pred_val == &sentinel_); a link that
+ * turned out not to be the tail link (ABA in try_lock_checking) was unlocked with its value unchanged (net_changes == 0) */
+#define DR_BREAK_POST (G.lk.held[L_QHEAD] && G.lk.held[G.tlc_li] && (G.tlc_li == L_W1 || G.tlc_li == L_W2) && G.lk.acq == G.lk.rel + 2 && G.lk.net_changes == 0 \
+                       && pred_link == LK_ADDR(G.tlc_li) && pred_val == G.lk.acq_val[G.tlc_li] && pred_val == QSENTV && G.self_stores == 0 && T_PRIVATE_EMPTY)
 static void drain__loop0(struct ail* self) {
   VF_P(DR_INV, "cut point (lock-the-last-link loop): head_ held, first node is a real node, nothing stored yet, target private");
   VF_CANARY("drain reaches the loop that locks the last link");
   /* some iterations later the loop was left by `break` (the body unit shows the state then is DR_BREAK_POST): build it */
   vf_interfere();
+  unsigned k = VF_nondet_u32(); __CPROVER_assume(k < 500); G.lk.rel = k; G.lk.acq = k + 1;      /* k failed attempts, each balanced */
   int li = VF_nondet_int(); __CPROVER_assume(li == L_W1 || li == L_W2);
-  pred_link = vf_lk(li); vf_acquire(li, pred_link, 0); G.tlc_li = li; pred_val = G.lk.acq_val[li];
+  pred_link = vf_lk(li); vf_acquire(li, pred_link, 1); G.tlc_li = li; pred_val = G.lk.acq_val[li];
   __CPROVER_assume(DR_BREAK_POST);
 }
 #define VF_LOOP_DR drain__loop0(self)
-#define DRAINED(latched_after) (G.lk.acq == 2 && G.lk.rel_val[L_QHEAD] == ((latched_after) ? QLATCHV : QSENTV) && G.lk.rel_val[G.tlc_li] == TSENTV && G.pub[N_TSENT])
+#define DRAINED(latched_after) (G.lk.net_changes == 2 && G.lk.rel_val[L_QHEAD] == ((latched_after) ? QLATCHV : QSENTV) && G.lk.rel_val[G.tlc_li] == TSENTV && G.pub[N_TSENT])
 void AIL_drain_into_impl(struct ail* self, struct ail* target)
 __CPROVER_requires(LIST_REQ(self) && target == &T && T_PRIVATE_EMPTY && !G.pub[N_ITEM])
 __CPROVER_assigns(LIST_ASSIGNS)
@@ -424,7 +430,7 @@ __CPROVER_ensures(!IS_SENT(G.lk.acq_val[L_QHEAD]) ==> DRAINED(0)) /* whole chain
 /*@BODY drain_into_impl*/
 
 int drain__loop0_body(struct ail* self)
-__CPROVER_requires(self == &Q && G.mode == MODE_LIST && DR_INV)
+__CPROVER_requires(self == &Q && G.mode == MODE_LIST && DR_INV && G.lk.acq == 1)
 __CPROVER_assigns(LIST_ASSIGNS)
 __CPROVER_ensures(__CPROVER_return_value == VF_X_CONTINUE || __CPROVER_return_value == VF_X_BREAK)
 __CPROVER_ensures(__CPROVER_return_value == VF_X_CONTINUE ==> DR_INV)
@@ -432,7 +438,7 @@ __CPROVER_ensures(__CPROVER_return_value == VF_X_BREAK ==> DR_BREAK_POST)
 /*@LOOPBODY drain_into_impl.loop0.body*/
 
 int latch__loop0_body(struct ail* self)
-__CPROVER_requires(self == &Q && G.mode == MODE_LIST && DR_INV && Latch)
+__CPROVER_requires(self == &Q && G.mode == MODE_LIST && DR_INV && G.lk.acq == 1 && Latch)
 __CPROVER_assigns(LIST_ASSIGNS)
 __CPROVER_ensures(__CPROVER_return_value == VF_X_CONTINUE || __CPROVER_return_value == VF_X_BREAK)
 __CPROVER_ensures(__CPROVER_return_value == VF_X_CONTINUE ==> DR_INV)
@@ -496,7 +502,7 @@ void h_push_back_impl(void) { h_list_init(); G.no_latch = 1; vf_interfere(); AIL
 void h_push_back_loop_body(void) {
   h_list_init(); G.no_latch = 1; ITEM.rest = QSENTV; vf_interfere();
   int r = push_back__loop0_body(&Q, &ITEM); VF_CANARY("after push_back loop body");
-  if (r == VF_X_CONTINUE) { VF_CANARY("push_back can retry"); } else if (G.tlc_li == L_QHEAD) { VF_CANARY("push_back on an empty list"); } else { VF_CANARY("push_back after a node"); }
+  if (r == VF_X_CONTINUE) { VF_CANARY("push_back can retry"); if (G.lk.acq == 1) { VF_CANARY("push_back can find a locked link that is not the tail link, unlock it and retry"); } } else if (G.tlc_li == L_QHEAD) { VF_CANARY("push_back on an empty list"); } else { VF_CANARY("push_back after a node"); }
 }
 void h_pop_front_impl(void) { h_list_init(); vf_interfere(); struct node* r = AIL_pop_front_impl(&Q); VF_CANARY("after pop_front"); if (r) { VF_CANARY("pop_front can return a node"); if (G.lk.rel_val[L_QHEAD] == QSENTV) { VF_CANARY("pop_front can empty the list"); } } else { VF_CANARY("pop_front can find the list empty"); } }
 static void h_tr_init(void) {
@@ -514,16 +520,16 @@ void h_try_remove_loop_body(void) {
   else if (G.ret) { VF_CANARY("try_remove can remove"); if (G.tlc_li == L_QHEAD) { VF_CANARY("try_remove of the first node"); } else { VF_CANARY("try_remove of an inner node"); } if (G.lk.acq_val[L_ITEM] == QSENTV) { VF_CANARY("try_remove of the last node"); } }
   else if (life == LIFE_NOT_IN_LIST) { VF_CANARY("try_remove of a node that is in no list"); } else { VF_CANARY("try_remove can lose against a concurrent pop"); }
 }
-void h_drain_into_impl(void) { h_list_init(); vf_interfere(); AIL_drain_into_impl(&Q, &T); VF_CANARY("after drain_into"); if (G.lk.acq == 2) { VF_CANARY("drain_into can move items"); } else { VF_CANARY("drain_into of an empty list"); } }
+void h_drain_into_impl(void) { h_list_init(); vf_interfere(); AIL_drain_into_impl(&Q, &T); VF_CANARY("after drain_into"); if (G.lk.net_changes == 2) { VF_CANARY("drain_into can move items"); } else { VF_CANARY("drain_into of an empty list"); } }
 static void h_dr_body_init(void) {
   h_list_init(); vf_interfere();
   vf_acquire(L_QHEAD, &Q.head_, 1); __CPROVER_assume(!IS_SENT(G.lk.acq_val[L_QHEAD]));
 }
-void h_drain_loop_body(void) { h_dr_body_init(); int r = drain__loop0_body(&Q); VF_CANARY("after drain loop body"); if (r == VF_X_BREAK) { VF_CANARY("the last link can be locked"); } else { VF_CANARY("locking the last link can be retried"); } }
+void h_drain_loop_body(void) { h_dr_body_init(); int r = drain__loop0_body(&Q); VF_CANARY("after drain loop body"); if (r == VF_X_BREAK) { VF_CANARY("the last link can be locked"); } else { VF_CANARY("locking the last link can be retried"); if (G.lk.acq == 2) { VF_CANARY("a locked link that is not the tail link is unlocked again"); } } }
 void h_latch_loop_body(void) { h_dr_body_init(); __CPROVER_assume(Latch); int r = latch__loop0_body(&Q); VF_CANARY("after latch loop body"); if (r == VF_X_BREAK) { VF_CANARY("the last link can be locked"); } }
 void h_push_front_unless_latched_impl(void) { h_list_init(); Latch = 1; vf_interfere(); _Bool r = AIL_push_front_unless_latched_impl(&Q, &ITEM); VF_CANARY("after push_front_unless_latched"); if (r) { VF_CANARY("can push"); } else { VF_CANARY("can find the list latched"); } }
 void h_latch_and_drain_impl(void) { h_list_init(); Latch = 1; vf_interfere(); AIL_latch_and_drain_impl(&Q, &T); VF_CANARY("after latch_and_drain");
-  if (G.lk.acq == 2) { VF_CANARY("latch_and_drain can move items"); } else if (G.lk.acq_val[L_QHEAD] == QSENTV) { VF_CANARY("latch_and_drain of an empty list"); } else { VF_CANARY("latch_and_drain of a latched list"); } }
+  if (G.lk.net_changes == 2) { VF_CANARY("latch_and_drain can move items"); } else if (G.lk.acq_val[L_QHEAD] == QSENTV) { VF_CANARY("latch_and_drain of an empty list"); } else { VF_CANARY("latch_and_drain of a latched list"); } }
 void h_unlatch_impl(void) { h_list_init(); Latch = 1; vf_interfere(); AIL_unlatch_impl(&Q); VF_CANARY("after unlatch"); if (G.lk.rel_val[L_QHEAD] != G.lk.acq_val[L_QHEAD]) { VF_CANARY("unlatch can clear the latch"); } }
 #endif
 
@@ -582,7 +588,7 @@ void h_seq_push_pop(void) {
   b_build(&BQ, k);
   struct seq before, after;
   VF_A(b_walk(&BQ, &before) && before.n == k, "the constructed list is well formed");
-  VF_P(AIL_ENS_EMPTY(AIL_empty_impl(&BQ), k), "bounded: empty() <=> no item");
+  { _Bool e = AIL_empty_impl(&BQ); VF_P(AIL_ENS_EMPTY(e, k), "bounded: empty() <=> no item"); }
   int op = VF_nondet_int(); __CPROVER_assume(op >= 0 && op <= 2);
   if (op == 0) {
     AIL_push_front_impl(&BQ, &XN);
@@ -604,7 +610,7 @@ void h_seq_push_pop(void) {
     for (unsigned i = 0; i + 1 < k; i++) VF_P(after.a[i] == before.a[i + 1], "bounded: pop_front keeps the other nodes in order");
     if (r) { VF_P(r->self == NULL && r->rest == 0, "bounded: the popped node is marked not-in-list and its link is cleared and unlocked"); VF_CANARY("bounded pop_front of a node"); }
     /* a node already popped can not be removed again */
-    if (r) { VF_P(AIL_ENS_TRY_REMOVE(B_try_remove_impl(&BQ, r), 0), "bounded: try_remove of an already popped node returns false"); struct seq a2; VF_P(b_walk(&BQ, &a2) && a2.n == after.n, "bounded: ... and changes nothing"); }
+    if (r) { _Bool t = B_try_remove_impl(&BQ, r); VF_P(AIL_ENS_TRY_REMOVE(t, 0), "bounded: try_remove of an already popped node returns false"); struct seq a2; VF_P(b_walk(&BQ, &a2) && a2.n == after.n, "bounded: ... and changes nothing"); }
   }
   VF_CANARY("after bounded push/pop");
 }
@@ -623,7 +629,7 @@ void h_seq_try_remove(void) {
     VF_P(after.n == k - 1, "bounded: try_remove removes exactly the item");
     for (unsigned i = 0; i + 1 < k; i++) VF_P(after.a[i] == before.a[i < j ? i : i + 1], "bounded: try_remove keeps the other nodes in order");
     VF_P(x->self == NULL && x->rest == 0, "bounded: the removed node is marked not-in-list and its link is cleared and unlocked");
-    VF_P(AIL_ENS_TRY_REMOVE(B_try_remove_impl(&BQ, x), 0), "bounded: a second try_remove of the same node returns false");
+    { _Bool t = B_try_remove_impl(&BQ, x); VF_P(AIL_ENS_TRY_REMOVE(t, 0), "bounded: a second try_remove of the same node returns false"); }
     VF_CANARY("bounded try_remove of a member");
   } else {
     VF_P(after.n == k, "bounded: try_remove of a non-member changes nothing");
@@ -652,14 +658,14 @@ void h_seq_latch(void) {
   b_build(&BQ, k); b_empty(&BT);
   struct seq before, aq, at;
   VF_A(b_walk(&BQ, &before) && before.n == k, "the constructed list is well formed");
-  VF_P(AIL_ENS_IS_LATCHED(AIL_is_latched_impl(&BQ), 0), "bounded: a fresh list is not latched");
+  { _Bool l = AIL_is_latched_impl(&BQ); VF_P(AIL_ENS_IS_LATCHED(l, 0), "bounded: a fresh list is not latched"); }
   B_latch_and_drain_impl(&BQ, &BT);
   VF_P(b_walk(&BQ, &aq) && aq.n == 0 && aq.latched, "bounded: latch_and_drain leaves the source latched and empty");
-  VF_P(AIL_ENS_IS_LATCHED(AIL_is_latched_impl(&BQ), 1) && AIL_ENS_EMPTY(AIL_empty_impl(&BQ), 0), "bounded: is_latched() true, empty() true afterwards");
+  { _Bool l = AIL_is_latched_impl(&BQ), e = AIL_empty_impl(&BQ); VF_P(AIL_ENS_IS_LATCHED(l, 1) && AIL_ENS_EMPTY(e, 0), "bounded: is_latched() true, empty() true afterwards"); }
   VF_P(b_walk(&BT, &at) && at.n == k, "bounded: latch_and_drain moves ALL items to the target");
   for (unsigned i = 0; i < k; i++) VF_P(at.a[i] == before.a[i], "bounded: latch_and_drain keeps the order");
-  VF_P(AIL_pop_front_impl(&BQ) == NULL, "bounded: pop_front on a latched list returns NULL");
-  VF_P(AIL_ENS_PUSH_UNLESS_LATCHED(AIL_push_front_unless_latched_impl(&BQ, &XN), 1) && XN.self == NULL, "bounded: push_front_unless_latched on a latched list returns false and leaves the item alone");
+  { struct node* pr = AIL_pop_front_impl(&BQ); VF_P(pr == NULL, "bounded: pop_front on a latched list returns NULL"); }
+  { _Bool pu = AIL_push_front_unless_latched_impl(&BQ, &XN); VF_P(AIL_ENS_PUSH_UNLESS_LATCHED(pu, 1) && XN.self == NULL, "bounded: push_front_unless_latched on a latched list returns false and leaves the item alone"); }
   int op = VF_nondet_int();
   if (op == 0) {                                  /* latch again: nothing happens, the (non-empty) target argument is not needed: use a fresh one */
     static struct ail BT2; b_empty(&BT2);
@@ -668,8 +674,8 @@ void h_seq_latch(void) {
     VF_CANARY("bounded second latch");
   } else {
     AIL_unlatch_impl(&BQ);
-    VF_P(b_walk(&BQ, &aq) && aq.n == 0 && !aq.latched && !AIL_is_latched_impl(&BQ), "bounded: unlatch clears the latch, list empty and well formed");
-    VF_P(AIL_ENS_PUSH_UNLESS_LATCHED(AIL_push_front_unless_latched_impl(&BQ, &XN), 0), "bounded: push_front_unless_latched on an unlatched list returns true");
+    { _Bool l = AIL_is_latched_impl(&BQ); VF_P(b_walk(&BQ, &aq) && aq.n == 0 && !aq.latched && !l, "bounded: unlatch clears the latch, list empty and well formed"); }
+    { _Bool pu = AIL_push_front_unless_latched_impl(&BQ, &XN); VF_P(AIL_ENS_PUSH_UNLESS_LATCHED(pu, 0), "bounded: push_front_unless_latched on an unlatched list returns true"); }
     VF_P(b_walk(&BQ, &aq) && aq.n == 1 && aq.a[0] == &XN, "bounded: ... and the item is in the list");
     AIL_unlatch_impl(&BQ);
     VF_P(b_walk(&BQ, &aq) && aq.n == 1 && !aq.latched, "bounded: unlatch on an unlatched list changes nothing");
